@@ -530,6 +530,14 @@ func c16Numbers(run *core.Run) {
 				used = append(used, v)
 				fmt.Fprintf(&sb, "%s:%s%s;", prop, v, unit)
 			}
+			// numbers that are shorter with an exponent, also inside the arguments of functions (the option holds at
+			// every depth of a value)
+			for k := 0; k < 3; k++ {
+				big := r.Pick([]string{"5000", "20000", "1000000", "30000", "0.0001", ".00002", "7000"})
+				fn := r.Pick([]string{"clip:rect(%spx,%spx,0,0);", "transform:translate(%spx,%spx);", "margin-left:max(%spx,%spx);", "left:calc(%spx + %spx);", "background-position:%spx %spx;"})
+				used = append(used, big)
+				fmt.Fprintf(&sb, fn, big, r.Pick([]string{"40000", "9000", "1"}))
+			}
 			sb.WriteString("}")
 			in := sb.String()
 			for _, css2 := range []bool{false, true} {
@@ -623,6 +631,14 @@ var c16Flags = []c16Flag{
 	{"--svg-keep-comments", "svg", "<svg xmlns=\"http://www.w3.org/2000/svg\"><!-- c --><path d=\"M0 0L10 10\"/></svg>"},
 	{"--svg-precision=3", "svg", "<svg xmlns=\"http://www.w3.org/2000/svg\"><rect x=\"1.23456\" width=\"10.98765\"/></svg>"},
 	{"--xml-keep-whitespace", "xml", "<a>  <b> x </b>  </a>"},
+	// options of an embedded language reach every place of a document where that language occurs
+	{"--js-keep-var-names", "html", "<script type=\"module\">function f(alpha,beta){var gamma=alpha+beta;return gamma*gamma}f(1,2)</script><script>function g(delta){var eps=delta*2;return eps}g(1)</script><script type=\"text/javascript\">function k(eta){var theta=eta+1;return theta}</script><p onclick=\"var zeta=1;h(zeta)\">x</p>"},
+	{"--js-version=2015", "html", "<script type=\"module\">x=a==null?b:a;try{f()}catch(e){}</script><script>y=c==null?d:c;try{g()}catch(e){}</script>"},
+	{"--js-precision=3", "html", "<script type=\"module\">x=1.23456</script><script>y=0.000123456</script>"},
+	{"--css-precision=3", "html", "<style>a{width:1.23456px}</style><p style=\"height:0.000123456em\">x</p><style type=\"text/css\">b{width:9.87654px}</style>"},
+	{"--svg-precision=3", "html", "<p>x</p><svg><rect x=\"1.23456\" width=\"10.98765\"/></svg>"},
+	{"--json-precision=3", "html", "<script type=\"application/ld+json\">[1.23456,0.000123456]</script><script type=\"application/json\">[9.87654]</script>"},
+	{"--css-precision=3", "svg", "<svg xmlns=\"http://www.w3.org/2000/svg\"><style>a{width:1.23456px}</style><rect style=\"stroke-width:1.23456px\" width=\"1\"/></svg>"},
 }
 
 func c16CLI(run *core.Run) {
